@@ -991,6 +991,7 @@ class BaseDAGExecution(Generic[P, RVDAG]):
 
     xn_dict: Dict[Identifier, ExecNode] = field(init=False, default_factory=dict)
     executed: bool = False
+    started: bool = False
     cached_nodes: List[ExecNode] = field(init=False, default_factory=list)
 
     profiles: Dict[Identifier, Profile] = field(init=False, default_factory=dict)
@@ -1072,6 +1073,12 @@ class BaseDAGExecution(Generic[P, RVDAG]):
     def _pre_call(self) -> None:
         if self.executed:
             raise TawaziUsageError("DAGExecution object has already been executed.")
+        # the scheduler consumes self.graph: a run that failed midway must not be resumed on what is left
+        if self.started:
+            raise TawaziUsageError(
+                "DAGExecution object has already been started (its previous run failed)."
+            )
+        self.started = True
 
         # the results the scheduler starts from: the DAG's own (constants, setup) ...
         self._start_results = self.dag.results
